@@ -50,7 +50,18 @@ def default_only_when_none(col, rule, sx: SCtx, q: str, p):
             if d.name == p[2] and d.kind == "assign":
                 if sx.sym.of(d.value, nid) == p:
                     continue    # `x = x` (the other arm of a lowered conditional expression)
-                col.add(rule, f"{q}#default-only-when-None", sx.under(nid, ("cmp", "is", p, ("const", "None"))), sx.loc(nid),
+                isnone = ("cmp", "is", p, ("const", "None"))
+                ok_ = sx.under(nid, isnone)
+                if not ok_:
+                    # `p = _if_none(p, default)`: judged by where the assigned value came from -- every value that is not p itself
+                    # was chosen under `p is None`
+                    try:
+                        gv = sx.guarded_values(d.value, nid)
+                    except Exception:
+                        gv = []
+                    ok_ = bool(gv) and all(v == p or isnone in cs for v, cs in gv if v != ("const", "None") or isnone in cs) \
+                        and any(v == p for v, cs in gv)
+                col.add(rule, f"{q}#default-only-when-None", ok_, sx.loc(nid),
                         f"`{p[2]}` is replaced by its 'everything' default only when it is None (an empty collection means: nothing)",
                         f"conditions: {[S.show(c) for c in sx.conds(nid)]}")
 
